@@ -31,6 +31,7 @@ theorem eff_index (s : Step) (d : Disk) (r : Nat) :
   | create r' n => exact Or.inl rfl
   | wr r' n b => exact Or.inl rfl
   | cancel r' n => exact Or.inl rfl
+  | touch r' a h => exact Or.inl rfl
 
 /-- **Values of index.json at crash points.**  Whatever the request, at every crash point `index.json` holds
 what it held before, or the complete bytes of one of the request's index saves, or (empty-repository removal) is gone.
@@ -91,6 +92,7 @@ theorem crash_blob_values (ss : List Step) (r a x : Nat) {d c : Disk} (h : Crash
       | create r' n => exact Or.inl rfl
       | wr r' n b => exact Or.inl rfl
       | cancel r' n => exact Or.inl rfl
+      | touch r' a' h' => exact Or.inl rfl
     have hn' : ∀ n mk, Step.commit r n a x mk ∉ rest := fun n mk hm => hn n mk (List.mem_cons_of_mem _ hm)
     rcases crash_append h with h1 | h2
     · rcases step_crash s h1 with ha | ha | ⟨r', b, k, _, ha⟩
@@ -235,6 +237,24 @@ theorem ensureRepo_blob (p : Pre) (n : Nat) (k : Contents) (r a x : Nat) : ¬ to
     rcases repoInit_touches p n k _ h with ⟨e, _⟩ | ⟨e, _⟩ <;> cases e
   · simpa using touches_nil
 
+theorem respSave_touches (p : Pre) (k : Contents) (haveUp rhad rAlgDir : Bool) (nu n ra rh : Nat) (idx : Bytes) (q : Path)
+    (h : touches (respSave p k haveUp rhad rAlgDir nu n ra rh idx) q) : q = .blob p.r ra rh ∨ q = .index p.r := by
+  unfold respSave at h
+  rcases touches_append h with h | h
+  · cases rhad
+    · simp only [Bool.false_eq_true, if_false] at h
+      exact Or.inl (blobPush_touches _ _ _ _ _ _ _ _ h)
+    · rw [touches_iff] at h; simp [Step.target] at h
+  · have := touches_singleton h; simp [Step.target] at this
+    exact Or.inr this.symm
+
+theorem convSave_touches (p : Pre) (inits : Bool) (n : Nat) (k : Contents) (q : Path) (h : touches (convSave p inits n k) q) :
+    q = .index p.r := by
+  rw [touches_iff] at h
+  unfold convSave at h
+  split at h <;> simp [Step.target] at h
+  exact h
+
 theorem tail_blob (p : Pre) (k : Contents) (inits : Bool) (subj haveUp rhad rAlgDir : Bool) (ra rh ma mh : Nat)
     (hne : ¬ (ra = ma ∧ rh = mh)) :
     ¬ touches (convSave p inits 2 k ++ [Step.isave p.r 3 k.index1] ++
@@ -242,20 +262,14 @@ theorem tail_blob (p : Pre) (k : Contents) (inits : Bool) (subj haveUp rhad rAlg
   intro h
   rcases touches_append h with h | h
   · rcases touches_append h with h | h
-    · rw [touches_iff] at h
-      unfold convSave at h
-      split at h <;> simp [Step.target] at h
+    · cases convSave_touches _ _ _ _ _ h
     · have := touches_singleton h; simp [Step.target] at this
   · cases subj
     · simp at h; exact touches_nil h
-    · simp only [if_true, respSave] at h
-      rcases touches_append h with h | h
-      · cases rhad
-        · simp only [Bool.false_eq_true, if_false] at h
-          have := blobPush_touches _ _ _ _ _ _ _ _ h
-          cases this; exact hne ⟨rfl, rfl⟩
-        · simp at h; exact touches_nil h
-      · have := touches_singleton h; simp [Step.target] at this
+    · simp only [if_true] at h
+      rcases respSave_touches _ _ _ _ _ _ _ _ _ _ _ h with e | e
+      · cases e; exact hne ⟨rfl, rfl⟩
+      · cases e
 
 theorem emptyRemoval_mem (cands : List Cand) (stop : Bool) (s : Step) (h : s ∈ emptyRemoval cands stop) :
     ∃ q, s = .rm q ∧ q ∈ cands.map Prod.fst := by
